@@ -1,5 +1,10 @@
 import SasLexer.Lex.Main
 import SasLexer.Spec.Basic
+import SasLexer.Spec.C06
+import SasLexer.Spec.C07
+import SasLexer.Spec.C08
+import SasLexer.Spec.C10
+import SasLexer.Spec.C11
 open SasLexer
 
 def srcOfHexLine (line : String) : Option (List Char) := charsOfHex line.trimAscii.toString
@@ -18,6 +23,11 @@ def verdict1 (prop : String) (s : List Char) (d : Dump) : Option Spec.Verdict :=
   | "C04" => some (Spec.C04 s d)
   | "C05" => some (Spec.C05 s d)
   | "C09" => some (Spec.C09 s d)
+  | "C06" => some (Spec.C06 s d)
+  | "C07" => some (Spec.C07 s d)
+  | "C08" => some (Spec.C08 s d)
+  | "C10" => some (Spec.C10 s d)
+  | "C11" => some (Spec.C11 s d)
   | _ => none
 
 def checkLine (line : String) : String :=
